@@ -171,6 +171,19 @@ CHECKS = {
         "side conditions per program (no symbolic input; flagged in evidence). Name pool is concrete.",
         design="4/C11",
     ),
+    "C12": dict(
+        text="Commuting squares with the real code on both sides: for conversion scenarios (registered pair, chain, several "
+        "deserializers in registration order, catch_value_error converter, dynamic conversion, field-level conversion, "
+        "inherited serializer, generic conversion, identity bypass of a registered conversion) x wrappers (plain, List, "
+        "Optional, Dict, tuple element, union member, dataclass field), every symbolic datum within bounds must give "
+        "deserialize(T, d) == f(deserialize(S, d)) and be rejected iff S rejects it (or f raises ValueError under "
+        "catch_value_error, reported as ValidationError); every symbolic value must give serialize(T, v) == "
+        "serialize(U, g(v)).",
+        note="Schemas of T vs S / U and the locality rule (a dynamic conversion does not reach the fields of nested "
+        "objects) are concrete side conditions per scenario. Standard-library converters are covered by C05 / C03 "
+        "std variants on concrete pools.",
+        design="4/C12",
+    ),
 }
 
 NOT_YET = "check not built yet at this commit (work in progress, see DESIGN.md section 4)"
